@@ -1318,6 +1318,28 @@ fn contains_break_continue(b: &syn::Block) -> bool {
     v.0
 }
 
+fn closure_body_leaves(e: &syn::Expr) -> bool {
+    struct V(bool);
+    impl<'ast> Visit<'ast> for V {
+        fn visit_expr_break(&mut self, _: &'ast syn::ExprBreak) {
+            self.0 = true;
+        }
+        fn visit_expr_continue(&mut self, _: &'ast syn::ExprContinue) {
+            self.0 = true;
+        }
+        fn visit_expr_return(&mut self, _: &'ast syn::ExprReturn) {
+            self.0 = true;
+        }
+        fn visit_expr_try(&mut self, _: &'ast syn::ExprTry) {
+            self.0 = true;
+        }
+        fn visit_expr_closure(&mut self, _: &'ast syn::ExprClosure) {}
+    }
+    let mut v = V(false);
+    v.visit_expr(e);
+    v.0
+}
+
 impl<'x, 'a, 'ast> Visit<'ast> for PassA<'x, 'a> {
     fn visit_expr_method_call(&mut self, m: &'ast syn::ExprMethodCall) {
         let name = m.method.to_string();
@@ -1330,6 +1352,29 @@ impl<'x, 'a, 'ast> Visit<'ast> for PassA<'x, 'a> {
                 let t = format!("({{ let l__ = {}; proof {{ if l__ < {} {{ final_seen__ = true; }} }} l__ }})", orig, bound);
                 self.w.rewrite("X7", lo(m.span()), hi(m.span()), t);
                 return;
+            }
+        }
+        // X15: `E.iter().for_each(|x| B)` -> `for x in E.iter() { B }` (std defines Iterator::for_each as exactly this fold
+        // over next(); the closure spelling is unreadable for Verus). Refused when the closure body holds a `return` or `?`
+        // (they leave the closure, not the function) or a break/continue; the result counts as a loop of the function.
+        if name == "for_each" && m.args.len() == 1 {
+            if let (syn::Expr::MethodCall(m0), syn::Expr::Closure(cl)) = (&*m.receiver, &m.args[0]) {
+                let simple_pat = cl.inputs.len() == 1 && matches!(&cl.inputs[0], syn::Pat::Ident(pi) if pi.by_ref.is_none() && pi.subpat.is_none());
+                if m0.method == "iter" && m0.args.is_empty() && simple_pat && cl.capture.is_none() && cl.asyncness.is_none() && matches!(cl.output, syn::ReturnType::Default) {
+                    if closure_body_leaves(&cl.body) {
+                        fatal(&format!("{}: X15 refused: the for_each closure body contains return / ? / break / continue; undecided", self.w.func));
+                    }
+                    self.w.loop_ord += 1;
+                    let ord = self.w.loop_ord;
+                    let spec = self.loop_spec(ord);
+                    let it = self.w.c.loops.get(&ord).and_then(|ls| ls.iter_name.clone()).map(|n| format!("{}: ", n)).unwrap_or_default();
+                    let pat = self.w.src[lo(cl.inputs[0].span())..hi(cl.inputs[0].span())].to_string();
+                    let recv = self.w.src[lo(m.receiver.span())..hi(m.receiver.span())].to_string();
+                    self.w.rewrite("X15", lo(m.span()), lo(cl.body.span()), format!("for {} in {}{} {} {{ ", pat, it, recv, spec));
+                    self.w.rewrite("X15", hi(cl.body.span()), hi(m.span()), " }".into());
+                    self.visit_expr(&cl.body);
+                    return;
+                }
             }
         }
         let on_self = matches!(&*m.receiver, syn::Expr::Path(p) if p.path.is_ident("self"));
